@@ -460,3 +460,100 @@ def rule_model_guards(F, ev, R, config, rule="R-MODEL-GUARDS"):
                         ok = any(r[0] == "Le" and r[2] == ("param", b.key, 2) and r[1][0] == "call" and r[1][1].endswith("::len") and r[1][3][0] == ("field", me, sm["names"]) for r in rels)
                         R.add(rule, config, b.key, "OutOfBounds⇔index≥|names|", ok, "" if ok else "index error produced without index ≥ number of parameters", s.get("span"))
     R.floor(rule, config, 4, "eval guard, deriv guards, error mapping")
+
+
+# --------------------------------------------------------------------------- #
+# R-DECLARED-ORDER (C16): the function's and every derivative's wrapper are built from the SAME
+# two name lists, in the order the caller declared them
+# --------------------------------------------------------------------------- #
+def wrapper_fn(F):
+    """the function (model names, function names, callable) -> Result<boxed wrapped callable, _>"""
+    c = [b for b in F.bodies.values() if b.kind != "Closure" and len(b.j.get("inputs", [])) == 3
+         and b.j["inputs"][0].startswith("&[") and b.j["inputs"][1].startswith("&[")
+         and b.j.get("output", "").startswith("std::result::Result<std::boxed::Box<(dyn ")]
+    if len(c) != 1:
+        raise AnchorMissing("wrapper constructor (names, names, F) -> Result<Box<dyn Fn>, _>: %d candidates" % len(c))
+    return c[0]
+
+
+def strip_copies(t):
+    """value identity through copies of a list (to_vec / clone / to_owned / into / collect of a plain iter)"""
+    while True:
+        if t[0] == "call" and t[1].rsplit("::", 1)[-1] in ("to_vec", "clone", "to_owned", "into", "from", "into_vec", "as_slice", "as_ref", "deref") and t[3]:
+            t = t[3][0]
+            continue
+        return t
+
+
+def rule_declared_order(F, ev, R, config, rule="R-DECLARED-ORDER"):
+    W = wrapper_fn(F)
+    fs = struct_fields(F, ADT_FNBUILDER)
+    lists = [f["name"] for f in fs if f["ty"].startswith("std::vec::Vec<std::string::String>")]
+    if len(lists) != 2:
+        raise AnchorMissing("function builder: expected two name-list fields, found %s" % lists)
+    methods = [b for b in inherent_methods(F, ADT_FNBUILDER)]
+    # roles by use: which field is passed as which argument of the wrapper constructor
+    role = {}
+    wsites = []
+    for b in methods:
+        env = Env(b)
+        me = ("param", b.key, 1)
+        for bi, t in b.calls():
+            if "fn" in t and (t["fn"].get("resolved_key") or t["fn"].get("key")) == W.key:
+                a0 = ev.operand(env, t["args"][0], (bi, None))
+                a1 = ev.operand(env, t["args"][1], (bi, None))
+                wsites.append((b, bi, t, a0, a1))
+                for idx, a in ((0, a0), (1, a1)):
+                    x = strip_copies(a)
+                    if x[0] == "field" and x[1] == me and x[2] in lists:
+                        role.setdefault(idx, set()).add(x[2])
+    if not wsites:
+        R.bad(rule, config, ADT_FNBUILDER, "anchor-missing", "the function builder never constructs a wrapped function")
+        return
+    if any(len(v) != 1 for v in role.values()) or set(role) != {0, 1} or role[0] == role[1]:
+        R.bad(rule, config, ADT_FNBUILDER, "list-roles", "the two name lists are not used consistently as (model names, function names): %s" % {k: sorted(v) for k, v in role.items()})
+        return
+    mrole, frole = next(iter(role[0])), next(iter(role[1]))
+    for b, bi, t, a0, a1 in wsites:
+        me = ("param", b.key, 1)
+        has_self = bool(b.j.get("inputs")) and ADT_FNBUILDER in b.j["inputs"][0]
+        if has_self:
+            ok = strip_copies(a0) == ("field", me, mrole) and strip_copies(a1) == ("field", me, frole)
+            R.add(rule, config, b.key, "wrapper-built-from-stored-lists", ok,
+                  "" if ok else "a derivative is wrapped with `%s` / `%s`, not with the stored (model names, function names) lists" % (short(a0)[:60], short(a1)[:60]), t.get("span"))
+        else:
+            # constructor: what is stored must be what the function itself was wrapped with
+            for bi2, si2, s in b.stmts():
+                if s["k"] == "assign" and s["rv"]["k"] == "agg" and s["rv"].get("adt") == ADT_FNBUILDER:
+                    v = ev.rvalue(Env(b), s["rv"], (bi2, si2))
+                    f = dict(v[3])
+                    okm = strip_copies(f.get(mrole)) == strip_copies(a0)
+                    okf = strip_copies(f.get(frole)) == strip_copies(a1)
+                    R.add(rule, config, b.key, "stored-lists=lists-the-function-was-wrapped-with", okm and okf,
+                          "" if okm and okf else "the builder stores `%s` as its %s list but wrapped the function with `%s`: derivatives will receive their arguments in a different order than the function"
+                          % (short(f.get(frole if okm else mrole))[:80], "function-name" if okm else "model-name", short(a1 if okm else a0)[:80]), s.get("span"))
+    # methods rebuild the builder with the same lists; nobody writes or mutably borrows them
+    for b in methods:
+        has_self = bool(b.j.get("inputs")) and ADT_FNBUILDER in b.j["inputs"][0]
+        if not has_self:
+            continue
+        me = ("param", b.key, 1)
+        for bi, si, s in b.stmts():
+            if s["k"] == "assign" and s["rv"]["k"] == "agg" and s["rv"].get("adt") == ADT_FNBUILDER:
+                v = ev.rvalue(Env(b), s["rv"], (bi, si))
+                f = dict(v[3])
+                ok = f.get(mrole) == ("field", me, mrole) and f.get(frole) == ("field", me, frole)
+                R.add(rule, config, b.key, "rebuilt-with-same-lists", ok, "" if ok else "the builder is rebuilt with changed name lists", s.get("span"))
+    for b in F.bodies.values():
+        for bi, si, s in b.stmts():
+            if s["k"] != "assign":
+                continue
+            pf = [e for e in s["place"]["proj"] if e["k"] == "field" and e.get("owner") == ADT_FNBUILDER and e["name"] in (mrole, frole)]
+            if pf:
+                R.bad(rule, config, b.key, "list-write:" + pf[0]["name"], "a stored name list of the function builder is written after construction", s.get("span"))
+            rv = s["rv"]
+            if rv["k"] in ("ref", "rawptr") and rv.get("mut"):
+                pf = [e for e in rv["place"]["proj"] if e["k"] == "field" and e.get("owner") == ADT_FNBUILDER and e["name"] in (mrole, frole)]
+                if pf:
+                    R.bad(rule, config, b.key, "list-mut-borrow:" + pf[0]["name"], "a stored name list of the function builder is borrowed mutably (reordered / changed in place?)", s.get("span"))
+    R.floor(rule, config, 3, "constructor, derivative wrapper, rebuild in partial_deriv")
